@@ -31,9 +31,10 @@ if TYPE_CHECKING:
 
 import charset_normalizer  # For str encoding detection
 
-# from sys import maxint as INF doesn't work anymore under Python3, but PDF
-# still uses 32 bits ints
-INF = (1 << 31) - 1
+# Neutral element for min()/max() when bounding boxes are accumulated.  It has
+# to be a real infinity: coordinates in a PDF are reals and may well exceed
+# 2**31 - 1 (the former value), which then clamped bounding boxes.
+INF = float("inf")
 
 FileOrName = Union[pathlib.PurePath, str, io.IOBase]
 AnyIO = Union[TextIO, BinaryIO]
